@@ -150,6 +150,9 @@ func FailurePatternPart(run *report.Run, st *Setup, n int, stream string, judge 
 		// dependency closure): containment, exit status and retries are the same there
 		viaTest := r.Chance(1, 3)
 		pf.Tests = viaTest
+		// a third of the histories has targets that bypass the cache (no-cache tag): whether
+		// their declared outputs exist is established on another path
+		pf.NoCache = !viaTest && r.Chance(1, 3)
 		s := spec.Gen(r, pf)
 		if !viaTest {
 			RepeatDeps(r, s, run)
